@@ -824,6 +824,8 @@ def _chain_alphabet(values, n, k, offset):
         idx = range(total)
     else:
         stride = 1013                                     # prime, coprime to 3^n and 4^n
+        if n > 8:
+            stride += 2 * (total // 7)                    # long chains: a stride that moves every position (still coprime)
         idx = [(offset + i * stride) % total for i in range(k)]
     out = []
     for i in idx:
@@ -873,6 +875,11 @@ def _diag_cases(q, seed):
         for lo in range(0, total, chunk):
             cases.append({'kind': 'diag', 'values': values, 'm': m, 'n': n, 'k': k, 'offset': off,
                           'lo': lo, 'hi': min(total, lo + chunk)})
+    # longer chains (fixed-stride members of the chain alphabet): lengths at which twice the length is / is not a power
+    # of two or a product of small primes - the zero padding of an FFT-based autocovariance must not show in the result
+    for n in ((13, 16, 17, 31, 37) if q else (9, 10, 11, 12, 13, 16, 17, 20, 25, 31, 32, 37, 38, 51, 61)):
+        add('int', 1, n, 12 if q else 30, chunk=6)
+        add('mix', 2, n, 3 if q else 5, chunk=1)
     if q:
         add('int', 1, 4, None)
         add('int', 2, 4, None, chunk=3)
